@@ -16,6 +16,6 @@ CONTRACTS = list(CONTRACTS) + [MapAttributesStub, EntityInitRefusal]
 
 MANIFEST = {
     "category": "proof",
-    "text": "Frame conditions over a symbolic HDF5 link graph (T-h5: links/attributes/datasets as z3 arrays, hard links = node equality, fresh nodes from a counter): H5Writer.fetch_handle changes nothing and returns exactly the entity's node; remove_child / remove_entity delete exactly the parent's entry and the flat entry and leave every other node, entry, attribute and dataset unchanged; write_to_parent links the child's own node under the parent's container of its kind and nothing else; write_entity is the identity on a stored entity (hence close() after no mutation changes nothing) and otherwise creates only fresh nodes plus one flat entry. Workspace.close writes only through the final save; Concatenator.add_save_concatenated keeps every other hole in the stored child list; Workspace.open starts from empty registries; Entity.parent.fset touches only the old and the new parent. Whole histories with per-node digests around an idle open/close are a seeded bounded stand-in. The concatenation histories (group copies, group-level data, idle sessions with per-node digests) and H5Writer.fetch_handle without any assumption on the entity's name are part of this check. Round-5 additions: H5Writer.save_entity (children saved whatever is already stored), the refusing-parent case of the parent setter, a frame stand-in across unrelated survey pairs (building / linking / editing / copying a second pair leaves every node of the first byte-identical) and the copies stand-in's source frame (a copy or clip leaves every stored node of its source, including the types it uses, unchanged). Round-6 additions: reading every public property of every entity changes no node of the file (writable workspace) -- the generic 'getters do not write' stand-in -- plus the components-getter contract; CopyNative's source-file digests. Round-7 additions: the table contracts of the drillhole storage and Workspace._type_in_stored_records (a type named by the stored records of any drillhole group stays) are part of this check, as is the sweep of dead registry entries.",
+    "text": "Frame conditions over a symbolic HDF5 link graph (T-h5: links/attributes/datasets as z3 arrays, hard links = node equality, fresh nodes from a counter): H5Writer.fetch_handle changes nothing and returns exactly the entity's node; remove_child / remove_entity delete exactly the parent's entry and the flat entry and leave every other node, entry, attribute and dataset unchanged; write_to_parent links the child's own node under the parent's container of its kind and nothing else; write_entity is the identity on a stored entity (hence close() after no mutation changes nothing) and otherwise creates only fresh nodes plus one flat entry. Workspace.close writes only through the final save; Concatenator.add_save_concatenated keeps every other hole in the stored child list; Workspace.open starts from empty registries; Entity.parent.fset touches only the old and the new parent. Whole histories with per-node digests around an idle open/close are a seeded bounded stand-in. The concatenation histories (group copies, group-level data, idle sessions with per-node digests) and H5Writer.fetch_handle without any assumption on the entity's name are part of this check. Round-5 additions: H5Writer.save_entity (children saved whatever is already stored), the refusing-parent case of the parent setter, a frame stand-in across unrelated survey pairs (building / linking / editing / copying a second pair leaves every node of the first byte-identical) and the copies stand-in's source frame (a copy or clip leaves every stored node of its source, including the types it uses, unchanged). Round-6 additions: reading every public property of every entity changes no node of the file (writable workspace) -- the generic 'getters do not write' stand-in -- plus the components-getter contract; CopyNative's source-file digests. Round-7 additions: the table contracts of the drillhole storage and Workspace._type_in_stored_records (a type named by the stored records of any drillhole group stays) are part of this check, as is the sweep of dead registry entries. Round-9 addition: Entity.__init__ under contract (a refused creation, whatever the exception class, leaves no half-built child that a later close would write).",
     "note": "h5py behaviour is the assumed T-h5 contract (audited); preconditions: the skeleton of WF(a), ownership of containers (skeleton nodes are nobody's entry), injective identifier names; write_entity_type/write_properties are call summaries; array/value writers and clear_stats_cache are not under contract.",
 }
